@@ -365,7 +365,7 @@ class Ctx(object):
         outdir = os.path.join(wd, "events")
         shutil.rmtree(outdir, ignore_errors=True)
         os.makedirs(outdir)
-        cases = l2chains.gen_cases(self.seed * 15485863 + sum(map(ord, self.prop)), ntraces, maxops, outdir)
+        cases = l2chains.gen_cases(self.seed * 15485863 + sum(map(ord, self.prop)), ntraces, maxops, outdir, focus=ops)
         cpath = os.path.join(wd, "pychain-cases.ndjson")
         with open(cpath, "w") as f:
             for c in cases:
